@@ -1394,7 +1394,7 @@ func RunC13(r *mon.Run) {
 	}
 
 	rng := r.Rand("c13")
-	total := r.Pick(16000, 600000)
+	total := r.Pick(16000, 400000)
 	rounds := r.Pick(4, 40)
 	per := total / rounds
 	var reqSeq int64
